@@ -5,6 +5,7 @@ G: Grid_Gen (width boundaries, key-pair classes, validator-set triples with prob
 X: harness/grid (ComputeWidth, IsNeighborInEpoch, NeighborIndicesInEpoch, AllNeighborValidators,
    ValidatorManager.IsNeighbor/GetNeighbors, PreferredInitiator in both argument orders).
 V: Grid_Trace judges every record against GridDefs."""
+import concurrent.futures as cf
 import json
 import vf
 
@@ -21,7 +22,7 @@ def seeded_cases(ctx):
     rng = vf.Rng(ctx.seed)
     out = []
     # key pairs: random; differing only in the last byte's top bit; sharing a long prefix; equal
-    n = 1500 if ctx.quick else 20000
+    n = 1000 if ctx.quick else 12000
     for i in range(n):
         a = rng.bytes(32)
         m = rng.n(6)
@@ -51,8 +52,8 @@ def seeded_cases(ctx):
             j = rng.n(i + 1)
             xs[i], xs[j] = xs[j], xs[i]
         return xs
-    sizes = [rng.n(41) for _ in range(30 if ctx.quick else 200)]
-    sizes += [rng.pick([6, 1023, 1100, 100 + rng.n(1001)]) for _ in range(6 if ctx.quick else 40)]
+    sizes = [rng.n(41) for _ in range(20 if ctx.quick else 150)]
+    sizes += [rng.pick([6, 1023, 1100, 100 + rng.n(1001)]) for _ in range(6 if ctx.quick else 24)]
     for V in sizes:
         pool = 2 * V + 3
         cur = shuffled(range(pool))[:V]
@@ -76,7 +77,7 @@ def seeded_cases(ctx):
             for _ in range(1 + rng.n(3)):
                 cur[rng.n(V)] = cur[rng.n(V)]
         pr, nx = other(), other()
-        idxs = list(range(-1, V + 1)) if V <= 40 else sorted({rng.n(V) for _ in range(12 if ctx.quick else 200)} | {-1, V})
+        idxs = list(range(-1, V + 1)) if V <= 40 else sorted({rng.n(V) for _ in range(12 if ctx.quick else 100)} | {-1, V})
         probes = []
         for a in idxs:
             kq = []
@@ -95,10 +96,21 @@ def run(ctx):
     ctx.assumptions += ["JAMNP-S grid structure and preferred-initiator formula as transcribed in spec/infra/GridDefs.tla (the formula is also quoted in manager.go)",
                         "keys are compared as byte strings; a validator's own key is not judged as its own neighbour; returned lists are compared as sets",
                         "validator values are a function of an abstract key id (driver-side bijection id <-> real 32-byte keys, seeded)"]
-    vf.mc(ctx, "MC_Grid", vf.cfg_text(constants={"MaxV": "30" if ctx.quick else "72", "MaxE": "4" if ctx.quick else "6",
-                                                 "KeyBytes": "{0, 127, 128, 255}" if ctx.quick else "{0, 1, 127, 128, 255}", "KeyLen": "3"},
-                                      invariants=INVS), workers=4, timeout=900, coverage=not ctx.quick)
-    binp = vf.build_driver(ctx, "grid", "./internal/verifdrv/grid", FILES)
+    # model checking, driver build and case generation are independent: run them side by side
+    jobs = [lambda: vf.mc(ctx, "MC_Grid", vf.cfg_text(constants={"MaxV": "30" if ctx.quick else "72", "MaxE": "4" if ctx.quick else "6",
+                                                                 "KeyBytes": "{0, 127, 128, 255}" if ctx.quick else "{0, 1, 127, 128, 255}", "KeyLen": "3"},
+                                                      invariants=INVS), workers=3 if ctx.quick else 4, timeout=900, coverage=not ctx.quick),
+            lambda: vf.build_driver(ctx, "grid", "./internal/verifdrv/grid", FILES)]
+    if not ctx.replay:
+        jobs.append(lambda: vf.gen_cases(ctx, "Grid_Gen", {"Tier": '"%s"' % ctx.tier}, timeout=900))
+    with cf.ThreadPoolExecutor(max_workers=len(jobs)) as ex:
+        futs = [ex.submit(j) for j in jobs]
+        res = [f.result() for f in futs]
+    binp = res[1]
+    if not ctx.quick:       # vacuity guard: the three walks of the model were taken
+        for act in ("NextV", "NextKey", "Rotate"):
+            if ctx.cov["actions"].get(act, 0) == 0:
+                raise vf.Infra("model-checking coverage of action %s is 0" % act)
     if ctx.replay:
         cases = []
         for ln in vf.read_lines(ctx.replay):
@@ -110,7 +122,7 @@ def run(ctx):
         casep = ctx.tmp + "/cases.ndjson"
         open(casep, "w").write("\n".join(cases) + "\n")
     else:
-        casep = vf.gen_cases(ctx, "Grid_Gen", {"Tier": '"%s"' % ctx.tier}, timeout=900)
+        casep = res[2]
         with open(casep, "a") as f:
             for c in seeded_cases(ctx):
                 f.write(json.dumps(c) + "\n")
@@ -121,7 +133,7 @@ def run(ctx):
     shards, cur, weight = [], [], 0
     limit = 600000 if ctx.quick else 900000
     for ln in lines:
-        if ln.startswith('{"cur"') or '"ev":"Set"' in ln[:2000] and '"ev":"Set"' in ln:
+        if '"ev":"Set"' in ln:
             if weight > limit:
                 shards.append(cur); cur, weight = [], 0
         cur.append(ln); weight += len(ln)
